@@ -140,6 +140,20 @@ PROPS = {
                  "subscriptions with the right method) was rejected for its credentials; (read-only): a statement calling a cr-sqlite function was accepted (status 200) by a read endpoint and the digest compared. Distinct = hash of the case."),
         "assumptions": ["a write admitted by mistake commits within 5-10 ms of the response (the digest is taken after that pause)", "TLS / admin socket are out of scope of the statement"],
     },
+    "C20": {
+        "level": "exploration",
+        "workers": 16,
+        "engine": "E2-sim",
+        "technique": "property-based schedule sampling with a watchdog: (pool) generated request schedules on the real SplitPool of a real node - three priorities, arrival offsets, hold times, requesters cancelled while queued or holding - with a live-holder counter inside the holders and a blocker phase in which every waiter is a hand-polled future, so the set and order of queued requests at the release is a fact; (mix) a full agent under a generated concurrent mix of local writes, remote complete and chunked versions, sync-state generation, matchers, cancelled HTTP requests and low-priority holders; oracle: holder count <= 1, priority waiters served before normal/low ones, every request and activity finishes and the node answers a write and a sync-state request afterwards",
+        "level_text": ("pool: 2-23 free-running requests (priority/normal/low, arrival 0-24 ms, hold 0-11 ms with a real write inside, 1 in 4 cancelled after 0-29 ms wherever it is) then a blocker of generated priority "
+                       "behind which 2-9 waiters of generated priorities are queued (each future polled once: its request is in its queue), release, grant order recorded; mix: 2-11 local transactions in two lanes over "
+                       "HTTP, 2-11 remote versions and optionally one 40-399 row version whose broadcast chunks arrive last-first (buffered, applied by the apply loop), 2-29 generate_sync calls, a join subscription "
+                       "and an update feed attached, 0-7 HTTP write requests whose client disconnects after 0.2-5 ms, 0-5 write_low holders; watchdog 60/90 s (cases take ~0.1-2 s)"),
+        "level_note": "schedules are sampled by the tokio scheduler and the OS, not enumerated: a lock-order inversion that needs a specific interleaving is found only if the mix happens to produce it (this is the limit of the technique for this property, see DESIGN.md); a watchdog expiry is reported as violation because 'completes' is the property and the budget is two orders of magnitude above the normal duration; normal-before-low and FIFO inside a class are recorded as classes, not asserted (the statement only orders client-priority before the rest)",
+        "rule": ("generated as above. Non-trivial (pool): at least one priority waiter and two different priorities among the waiters and at least one cancelled request in the free-running phase; (mix): >= 3 local transactions, >= 3 remote versions "
+                 "and at least one cancelled request or maintenance holder. Distinct = hash of the case."),
+        "assumptions": ["a request whose future was polled once with room in its queue is queued (true for the bounded channels of 256/512/1024 slots used)"],
+    },
     "C05": {
         "level": "exploration",
         "workers": 16,
